@@ -3,7 +3,9 @@ CONSTANTS Cap = 3
   Flush = 2
   MaxIndex = 9
   MaxOps = 9
+  MaxFails = 2
+  Bursts = {2}
   ResetTargets = {0, 1, 4, 7}
 INVARIANTS WindowExact
-PROPERTIES RestartBound
+PROPERTIES RestartBound RestartBoundNoFailure
 CHECK_DEADLOCK FALSE
